@@ -591,6 +591,9 @@ func feasibleSucc(pred, b, s *ssa.BasicBlock) bool {
 	}
 	v, known := evalConstCond(ifi.Cond, phiEnvFor(pred, b))
 	if !known {
+		v, known = evalEmptinessCond(ifi.Cond, pred, b)
+	}
+	if !known {
 		return true
 	}
 	if b.Succs[0] == b.Succs[1] {
@@ -600,6 +603,98 @@ func feasibleSucc(pred, b, s *ssa.BasicBlock) bool {
 		return s == b.Succs[0]
 	}
 	return s == b.Succs[1]
+}
+
+// evalEmptinessCond decides "x != nil" / "len(x) > 0" style conditions of block b for the value x has
+// when b is entered from pred: nil when the phi's incoming value is the nil constant, non-nil /
+// non-empty when the facts known at the end of pred say so about the incoming value (the shape
+// "v, ok := take(); if len(v) > 0" takes after the helper is inlined).
+func evalEmptinessCond(cond ssa.Value, pred, b *ssa.BasicBlock) (val, ok bool) {
+	neg := false
+	for {
+		if u, isU := cond.(*ssa.UnOp); isU && u.Op == token.NOT {
+			cond, neg = u.X, !neg
+			continue
+		}
+		break
+	}
+	bo, isB := cond.(*ssa.BinOp)
+	if !isB {
+		return false, false
+	}
+	env := phiEnvFor(pred, b)
+	// facts at the end of pred, including the branch taken towards b
+	facts := factsAt(pred)
+	if ifi, isIf := pred.Instrs[len(pred.Instrs)-1].(*ssa.If); isIf && len(pred.Succs) == 2 && pred.Succs[0] != pred.Succs[1] {
+		facts = append(facts, canonOf(Cond{ifi.Cond, pred.Succs[0] == b, ifi}))
+	}
+	decide := func(isEmpty, known bool, op token.Token, emptyWhenEq bool) (bool, bool) {
+		if !known {
+			return false, false
+		}
+		// the comparison is "x == <empty>" (emptyWhenEq) or "x > / != <empty>"
+		r := isEmpty == emptyWhenEq
+		_ = op
+		if neg {
+			r = !r
+		}
+		return r, true
+	}
+	subject := func(v ssa.Value) (isEmpty, known bool, viaLen bool) {
+		viaLen = false
+		if lc, ok := v.(*ssa.Call); ok && isCall(lc, "builtin len") {
+			v = lc.Call.Args[0]
+			viaLen = true
+		}
+		rv := resolvePhi(v, env)
+		if rv == v {
+			if _, isPhi := v.(*ssa.Phi); !isPhi {
+				return false, false, viaLen // nothing learnt from the edge
+			}
+		}
+		if isNilConst(rv) {
+			return true, true, viaLen
+		}
+		same := func(x ssa.Value) bool { return x == rv }
+		if viaLen && knownNonEmpty(facts, same) {
+			return false, true, viaLen
+		}
+		if !viaLen && knownNonNil(facts, same) {
+			return false, true, viaLen
+		}
+		if viaLen && knownEmpty(facts, same) {
+			return true, true, viaLen
+		}
+		return false, false, viaLen
+	}
+	x, y, op := bo.X, bo.Y, bo.Op
+	if _, isC := x.(*ssa.Const); isC {
+		x, y, op = y, x, mirrorOp(op)
+	}
+	isEmpty, known, viaLen := subject(x)
+	if viaLen {
+		n, isC := constInt(y)
+		if !isC {
+			return false, false
+		}
+		switch {
+		case n == 0 && op == token.EQL, n == 0 && op == token.LEQ, n == 1 && op == token.LSS:
+			return decide(isEmpty, known, op, true)
+		case n == 0 && op == token.NEQ, n == 0 && op == token.GTR, n == 1 && op == token.GEQ:
+			return decide(isEmpty, known, op, false)
+		}
+		return false, false
+	}
+	if !isNilConst(y) {
+		return false, false
+	}
+	switch op {
+	case token.EQL:
+		return decide(isEmpty, known, op, true)
+	case token.NEQ:
+		return decide(isEmpty, known, op, false)
+	}
+	return false, false
 }
 
 // edgeCondResolved: the condition of the edge from->to with a phi of `from` replaced by the value
@@ -1189,6 +1284,29 @@ func cmpHolds(facts []canonCond, mx, my func(ssa.Value) bool, ops ...token.Token
 			return true
 		}
 		if mx(f.Y) && my(f.X) && has(mirrorOp(f.Op)) {
+			return true
+		}
+	}
+	return false
+}
+
+// callKnown: a call accepted by pred is known to have returned want (a boolean call used as a branch condition).
+func callKnown(facts []canonCond, pred func(*ssa.Call) bool, want bool) bool {
+	for _, f := range facts {
+		if f.Op != token.ILLEGAL || f.True != want {
+			continue
+		}
+		if cl, ok := f.V.(*ssa.Call); ok && pred(cl) {
+			return true
+		}
+	}
+	return false
+}
+
+// boolKnown: a boolean value accepted by mv (e.g. a flag field) is known to be want.
+func boolKnown(facts []canonCond, mv func(ssa.Value) bool, want bool) bool {
+	for _, f := range facts {
+		if f.Op == token.ILLEGAL && f.True == want && f.V != nil && mv(f.V) {
 			return true
 		}
 	}
